@@ -125,6 +125,31 @@ pub fn scenario(g: &mut G, ctx: &RunCtx) -> RunReport {
                 e.finish().unwrap()
             }
         }
+        // (no draw) stored blocks written by hand: block lengths of the caller's choice, and the padding bits
+        // between a stored block's header and its LEN field set to something (RFC 1951 3.2.4: they are ignored)
+        Coding::Deflate if level == 0 && payload.len() % 2 == 1 => {
+            g.probe("hand-written-stored-blocks-with-padding-bits");
+            let mut v = Vec::new();
+            let first = [29usize, 91, 153, 215, 7][payload.len() % 5];
+            let mut p = 0usize;
+            let mut k = 0usize;
+            loop {
+                let want = if k == 0 { first } else { 65535 - k * 257 };
+                let n = want.min(payload.len() - p);
+                let last = p + n == payload.len();
+                let pad = [1u8, 0, 31, 9, 16][(payload.len() / 5 + k) % 5];
+                v.push((last as u8) | (pad << 3));
+                v.extend_from_slice(&(n as u16).to_le_bytes());
+                v.extend_from_slice(&(!(n as u16)).to_le_bytes());
+                v.extend_from_slice(&payload[p..p + n]);
+                p += n;
+                k += 1;
+                if last {
+                    break;
+                }
+            }
+            v
+        }
         Coding::Deflate => {
             let mut e = flate2::write::DeflateEncoder::new(Vec::new(), Compression::new(level));
             e.write_all(&payload).unwrap();
@@ -199,6 +224,16 @@ pub fn scenario(g: &mut G, ctx: &RunCtx) -> RunReport {
             headers.push(((*g.pick(&["Content-Encoding", "content-encoding"])).to_string(), label.as_bytes().to_vec()));
         }
     }
+    // (no draw) what else the response says about itself, and what the URL looks like: neither changes what a
+    // declared coding means
+    match (wire_body.len() + 3 * payload.len()) % 6 {
+        0 => headers.push(("Content-Type".into(), b"application/gzip".to_vec())),
+        1 => headers.push(("Content-Type".into(), b"application/x-gzip".to_vec())),
+        2 => headers.push(("Content-Type".into(), b"application/octet-stream".to_vec())),
+        3 => headers.push(("Content-Type".into(), b"text/plain; charset=utf-8".to_vec())),
+        _ => {}
+    }
+    let url_path: &'static str = ["/body", "/archive.tar.gz", "/bundle.tgz", "/page.html", "/data.gz", "/z.deflate", "/x.Z"][(wire_body.len() / 2 + payload.len()) % 7];
     let allow = !g.chance(1, 6);
     // an Accept-Encoding the caller (or a session) had set: replaced by the library's announcement when
     // compression is allowed, kept otherwise; what the server declares is decoded either way
@@ -262,6 +297,7 @@ pub fn scenario(g: &mut G, ctx: &RunCtx) -> RunReport {
         read_api: 0,
         text_charset: None,
         text_charset_implicit: false,
+        url_path,
         prelude: None,
         damage: damage.to_string(),
         cut_at: None,
